@@ -632,6 +632,7 @@ func (c *Cache) ServeDNS(ctx context.Context, ch *middleware.Chain) {
 	// client miss. middleware.IsInternal(ctx) remains the
 	// ctx-based successor for code paths without a writer in
 	// scope.
+	electedProbe := false
 	if !w.Internal() {
 		var (
 			previousGeneration   *waitgroup.Generation
@@ -656,6 +657,7 @@ func (c *Cache) ServeDNS(ctx context.Context, ch *middleware.Chain) {
 				leaderKey := dedupKey
 				leaderGeneration := generation
 				defer c.wg.DoneGeneration(leaderKey, leaderGeneration)
+				electedProbe = failureProbe
 				break
 			}
 
@@ -738,6 +740,20 @@ func (c *Cache) ServeDNS(ctx context.Context, ch *middleware.Chain) {
 			}
 			previousGeneration = generation
 			dedupKey = retryKey
+		}
+	}
+
+	// A probe's election is decided after the failure entry was read. If the
+	// previous probe leader finished in between - renewing the failure, whose
+	// backoff is now running again - this request found no generation to
+	// join and was elected a second probe for the same expiry. Look again
+	// before going upstream; leadership is released by the deferred Done.
+	if electedProbe {
+		if hit, ok := c.store.LookupFailure(req, clientScope); ok {
+			c.metrics.Hit()
+			failureCacheHits.Inc()
+			c.handleFailureHit(ctx, ch, hit)
+			return
 		}
 	}
 
